@@ -132,6 +132,14 @@ func escape(s string, m map[rune]string) string {
 				continue
 			}
 
+			// A backslash or a double quote can't follow a \C- or \M- prefix in a
+			// quoted string (\C-\" escapes the closing quote, \M-" closes the
+			// string): characters based on them are written with their octal code.
+			if (IsControl(c) && Decontrol(c) == '\\') || (IsMeta(c) && (Demeta(c) == '\\' || Demeta(c) == '"')) {
+				v = append(v, fmt.Sprintf(`\%03o`, c))
+				continue
+			}
+
 			var s string
 			if IsControl(c) {
 				s += `\C-`
